@@ -597,6 +597,81 @@ func TestVerifC19(t *testing.T) {
 		})
 	}
 
+	// ---- A6 (real time: a caller of Close that has to wait waits inside sync.Once, which is no wait a bubble's clock runs
+	// under): two overlapping Close calls. The first is held while it closes its first connection; whenever the second one
+	// returns, "Close has returned" holds for its caller too: every connection is closed.
+	for rep2 := 0; rep2 < 2; rep2++ {
+		func() {
+			name := fmt.Sprintf("A6/two-overlapping-Close-calls/%d", rep2)
+			e := newC19Env(1 + rep2)
+			closeHeld, closeGo := make(chan struct{}), make(chan struct{})
+			var holdClose atomic.Bool
+			e.cl.Lock()
+			var cmu sync.Mutex
+			conns := map[*verifsim.Conn]bool{} // the client's ends of its connections
+			e.cl.ConnHook = func(op verifsim.Op) *verifsim.Fault {
+				cmu.Lock()
+				conns[op.Conn] = true
+				cmu.Unlock()
+				if op.Kind == verifsim.OpClose && holdClose.CompareAndSwap(true, false) {
+					close(closeHeld)
+					<-closeGo
+				}
+				return nil
+			}
+			e.cl.Unlock()
+			for _, k := range []string{"a1", "h1", "q1"} { // all three regions: connections to ms, rs1, rs2
+				g, _ := hrpc.NewGet(context.Background(), []byte("t"), []byte(k))
+				e.c.Get(g)
+			}
+			holdClose.Store(true)
+			first := make(chan struct{})
+			go func() { e.c.Close(); close(first) }()
+			select {
+			case <-closeHeld:
+			case <-time.After(5 * time.Second):
+				rep.bad("harness:c19-a6", "%s: the first Close never reached a connection", name)
+				close(closeGo)
+				return
+			}
+			second := make(chan int, 1)
+			go func() {
+				e.c.Close()
+				open := 0
+				cmu.Lock()
+				for cn := range conns {
+					if !cn.IsClosed() {
+						open++
+					}
+				}
+				cmu.Unlock()
+				second <- open
+			}()
+			var open, early = 0, false
+			select {
+			case open = <-second: // it did not wait for the first one
+				early = true
+			case <-time.After(300 * time.Millisecond):
+			}
+			close(closeGo)
+			<-first
+			if !early {
+				select {
+				case open = <-second:
+				case <-time.After(5 * time.Second):
+					rep.bad("close-blocked", "%s: the second Close has not returned 5 s after the first one finished", name)
+				}
+			}
+			if open > 0 {
+				rep.bad("conn-open-after-close", "%s: a second Close, called while the first was still closing connections, returned while %d connection(s) "+
+					"were still open", name, open)
+			}
+			time.Sleep(100 * time.Millisecond)
+			rep.Scenarios++
+			rep.Distinct++
+		}()
+	}
+
 	// ---- B: Close at every hook position
 	for _, q := range []int{1, 5} {
 		ref := scenario(fmt.Sprintf("B/reference/q=%d", q), q, nil, func(e *c19Env, bus *hookBus) time.Time {
